@@ -12,8 +12,8 @@ from .base import Result, V
 from . import simcommon as SC
 from .c07 import dev
 
-MODULES = ['TickitModel.Props.C10', 'TickitModel.Props.C15', 'TickitModel.Props.C01']
-THEOREMS = ['part_tick_same', 'whole_never_stalls', 'extent_stays_inside', 'isPart_append', 'topic_injective', 'topic_in_ne_out', 'within_extent']
+MODULES = ['TickitModel.Props.C10', 'TickitModel.Props.C15', 'TickitModel.Props.C01', 'TickitModel.Props.C01Live']
+THEOREMS = ['part_tick_same', 'whole_never_stalls', 'extent_stays_inside', 'isPart_append', 'topic_injective', 'topic_in_ne_out', 'within_extent', 'tick_can_complete']
 ANCHORS = ["src/tickit/utils/topic_naming.py", "src/tickit/core/management/schedulers/nested.py", "src/tickit/core/management/schedulers/base.py",
            "src/tickit/core/state_interfaces/internal.py", "src/tickit/adapters/epics.py", "src/tickit/core/components/device_component.py"]
 TECHNIQUE = 'Lean 4 theorems (distinct components never share a topic - over constants regenerated from the code; a tick touches only the extent of its roots and never stalls on an acyclic wiring; projection of a tick onto a disconnected part) + differential runs of the real code: configuration vs configuration extended by a disconnected part, incl. the shipped EPICS and command adapter classes'
